@@ -292,7 +292,13 @@ pub fn locate(r: &Rendered, d: &Diag) -> (String, i64, String) {
         let first = spans[0].0;
         let last = spans[spans.len() - 1].1;
         if d.start_raw >= first && d.start_raw <= last {
-            if (d.start_raw, d.end_raw) == (first, last) && spans.len() > 1 {
+            // a statement of one token (`ret`, `ecall`, `nop`) is its own mnemonic: whether a
+            // diagnostic means the instruction or a register implied by it follows from its kind
+            const ABOUT_THE_INSTRUCTION: [&str; 10] = [
+                "unreachable-code", "invalid-segment", "node-in-many-functions", "unknown-stack", "invalid-stack-pointer",
+                "invalid-stack-position", "invalid-stack-offset-usage", "unknown-ecall", "first-instruction-is-function", "invalid-jump-to-function",
+            ];
+            if (d.start_raw, d.end_raw) == (first, last) && (spans.len() > 1 || ABOUT_THE_INSTRUCTION.contains(&d.code.as_str())) {
                 return (d.code.clone(), si as i64, "whole".into());
             }
             for (k, sp) in spans.iter().enumerate() {
